@@ -472,9 +472,9 @@ def h_sizing_shipped(tier='quick', replay=None):
 @custom_obligation(
     funcs=['(lemma about CPython float arithmetic used by '
            'radical/pilot/pmgr/launching/base.py:_prepare_pilot: math.ceil(a / b))'],
-    shapes={'quick': [{'k': 8}], 'thorough': [{'k': 12}]},
+    shapes={'quick': [{'k': 6}], 'thorough': [{'k': 12}]},
     bounds='operands a, b: unsigned integers 0 <= a <= 2^k, 1 <= b <= 2^k '
-           '(quick k=8, thorough k=12); beyond that "float division behaves '
+           '(quick k=6, thorough k=12); beyond that "float division behaves '
            'like real division" stays an assumption',
     timeout={'quick': 300, 'thorough': 1500})
 def h_lemma_float_division(tier='quick', replay=None, k=8):
